@@ -19,6 +19,10 @@ def render(r):
             s += f"[{idx}]"
     if r.get("bit") is not None:
         s += f".{r['bit']}"
+    if r.get("mangle"):
+        # a name whose index is not closed properly ("da[63", "da[6x"): not the name of anything the controller holds
+        k = s.rfind("]")
+        s = s[:k] + {"drop": "", "x": "x", "brace": "}", "open": "["}[r["mangle"]] + s[k + 1:]
     if r.get("count") is not None:
         s += "{%d}" % r["count"]
     return s
@@ -315,6 +319,10 @@ def invalidate(draw, p, r, op):
         kinds += ["index-range", "count-range"]
     if t["dims"] and t["type"] == "DWORD":
         kinds += ["negative-index"]
+    if t["dims"]:
+        kinds += ["negative-count", "mangled-index"]
+    if t["type"] in ("DWORD", "BOOL"):
+        kinds += ["bit-of-bool"]
     if t["type"] in INT_BITS:
         kinds += ["bit-range"]
     if p.is_struct(t["type"]):
@@ -346,6 +354,38 @@ def invalidate(draw, p, r, op):
         r["count"] = draw(st.sampled_from([None, 4, 32, 40]))
         if op == "write":
             r["value"] = [True] * r["count"] if r["count"] else True
+    elif kind == "negative-count":
+        # a count below zero is out of range for every array, BOOL arrays (whose count the library converts to 32-bit words) included
+        n = draw(st.sampled_from([1, 5, 31, 32, 33, 40, 64, 65536]))
+        r["path"], r["bit"], r["count"] = [], None, -n
+        if t["type"] == "DWORD":
+            total = p.n_elements(t) * 32
+            r["idx"] = draw(st.sampled_from([None, [0], [32 % total], [64 % total], [40 % total], [total - 1]]))
+            if op == "write":
+                r["value"] = [True] * min(n, 64)
+        else:
+            r["idx"] = draw(st.sampled_from([None, [0] * len(t["dims"]), [d - 1 for d in t["dims"]]]))
+            if op == "write":
+                r["value"] = [draw(value_for(p, t["type"], allow_long=False))] * min(n, 64)
+    elif kind == "mangled-index":
+        if t["type"] == "DWORD":
+            r["idx"] = [draw(st.integers(0, p.n_elements(t) * 32 - 1))]
+        else:
+            r["idx"] = [draw(st.integers(0, d - 1)) for d in t["dims"]]
+        r["path"], r["bit"], r["count"] = [], None, None
+        r["mangle"] = draw(st.sampled_from(["drop", "drop", "x", "brace", "open"]))
+        if op == "write":
+            r["value"] = True if t["type"] == "DWORD" else draw(value_for(p, t["type"], allow_long=False))
+    elif kind == "bit-of-bool":
+        # a BOOL has no bits: tag.N below a BOOL or an element of a BOOL array names nothing
+        if t["type"] == "DWORD":
+            r["idx"] = draw(st.sampled_from([None, [draw(st.integers(0, p.n_elements(t) * 32 - 1))]]))
+        else:
+            r["idx"] = [0] * len(t["dims"]) if t["dims"] else None
+        r["path"], r["count"] = [], None
+        r["bit"] = draw(st.integers(0, 40))
+        if op == "write":
+            r["value"] = draw(st.booleans())
     elif kind == "bit-range":
         # the bit index of tag.N is an index too: beyond the integer's width there is no such bit
         width = INT_BITS[t["type"]]
